@@ -425,6 +425,7 @@ func main() {
 		childMain()
 		return
 	}
+	isolate()
 	defer killChildren()
 	lib.Main(exec, gen)
 }
